@@ -38,3 +38,7 @@ Definition process_exit (e : cmd_error) : N :=
 
 Definition exit_code (fail_level : str) (res : lint_result) : N :=
   process_exit (lint_run_e fail_level res).
+
+(* "a violation of that level was found" *)
+Definition has_level (lvl : str) (r : report) : Prop :=
+  exists v, In v (r_violations r) /\ v_level v = lvl.
